@@ -12,7 +12,8 @@ From V.lib Require Import Base.
 From V.c13 Require Import C13Model.
 From V.c17 Require Import C17Spec C17Model C17TypedModel.
 From V.c18 Require C18Model.
-From V.c16 Require Import C16AuxModel C16AuxSeiProofs C16AuxExtractProofs C16AuxAacProofs.
+From V.c14 Require C14Model.
+From V.c16 Require Import C16AuxModel C16AuxSeiProofs C16AuxExtractProofs C16AuxAacProofs C16AuxScanProofs.
 
 (* ------------------------------------------------------------------ sei.ExtractSEIData *)
 (* every byte list: the Go-shaped run returns what the C17 model returns; never out of fuel;
@@ -128,6 +129,30 @@ Theorem C16_aac_DecodeAudioSpecificConfig_total : forall data : list N,
 Proof. exact decode_asc_total. Qed.
 Print Assumptions C16_aac_DecodeAudioSpecificConfig_total.
 
+(* ------------------------------------------------------------------ Annex B scanners (C14 models: partial
+   getb / slice / copy_into, every loop on fuel S |input| with one unit of fuel per iteration, so "not
+   OutOfFuel" is "at most |input| + 1 iterations of each loop") *)
+(* the word-at-a-time start-code scanner, every BYTE list (the zero-byte word trick is about bytes):
+   lifted from C14 scanner_eq_naive *)
+Theorem C16_avc_getStartCodePositions_total : forall l : list N,
+  bytes_ok l = true ->
+  exists scl m, C14Model.get_start_code_positions l = Ok (scl, m) /\ lenN scl <= lenN l /\ (m = 3 \/ m = 4)%Z.
+Proof. exact get_start_code_positions_total_short. Qed.
+Print Assumptions C16_avc_getStartCodePositions_total.
+
+(* every byte list, any mix or adjacency of start codes (not only the well-formed streams of C14) *)
+Theorem C16_avc_ConvertByteStreamToNaluSample_total : forall l : list N,
+  bytes_ok l = true ->
+  exists out, C14Model.to_nalu_sample l = Ok out /\ lenN out <= 5 * lenN l.
+Proof. exact to_nalu_sample_total. Qed.
+Print Assumptions C16_avc_ConvertByteStreamToNaluSample_total.
+
+(* EVERY list, no hypothesis *)
+Theorem C16_avc_ExtractNalusFromByteStream_total : forall d : list N,
+  exists nalus, C14Model.extract_nalus_from_byte_stream d = Ok nalus /\ lenN nalus <= lenN d.
+Proof. exact extract_nalus_from_byte_stream_total. Qed.
+Print Assumptions C16_avc_ExtractNalusFromByteStream_total.
+
 (* ------------------------------------------------------------------ the models compute on hostile inputs *)
 (* known_findings/C16.json F5: SEI NAL payload 04 00 (type 4, size 0) reaches the registered decoder with an
    empty payload; an unregistered payload shorter than the UUID *)
@@ -181,4 +206,13 @@ Proof. vm_compute. repeat split. Qed.
 
 Example ex_asc : C18Model.decode_asc [] = Err /\ C18Model.decode_asc [255] = Err /\
   C18Model.decode_asc [17; 144] = Ok (C18Model.mkAsc 2 2 48000%Z 0%Z false false).
+Proof. vm_compute. repeat split. Qed.
+
+(* adjacent start codes (a zero-length unit, F16), a start code at the very end, zeros only *)
+Example ex_annexb_hostile :
+  C14Model.extract_nalus_from_byte_stream [0; 0; 1; 0; 0; 1; 104; 232] = Ok [[]; [104; 232]] /\
+  C14Model.extract_nalus_from_byte_stream [0; 0; 1] = Ok [] /\
+  C14Model.to_nalu_sample [0; 0; 1; 0; 0; 1; 104; 232] = Ok [0; 0; 0; 0; 0; 0; 0; 2; 104; 232] /\
+  C14Model.to_nalu_sample [0; 0; 0; 0; 0; 0; 0; 0; 0; 0; 0; 0; 0; 0; 0; 0; 0; 0; 0; 1] =
+    Ok [0; 0; 0; 0; 0; 0; 0; 0; 0; 0; 0; 0; 0; 0; 0; 0; 0; 0; 0; 1].
 Proof. vm_compute. repeat split. Qed.
